@@ -25,6 +25,14 @@ CLAIMED = {
             "successful setter produces the Standard's state is value-level and not decided.",
             "typestate dataflow over per-instantiation CFGs with interprocedural summaries",
             "DESIGN.md §5 C03", "partial: the 'fails atomically' sentence"),
+    "C04": ("other",
+            "Decides the failure mode the property names (a change applied to one copy only): for 10 pairs of sibling "
+            "functions the canonicalised validation conditions guarding failing exits agree between ada::url and "
+            "ada::url_aggregator; in each of the 19 parser states both instantiations have the same component write "
+            "sites; memcmp-based in-place shortcuts are equality tests. Equality of all getters for all inputs is "
+            "value-level and not decided.",
+            "twin-skeleton comparison (A5) + per-state effect comparison over the state-machine graph (A3/A9)",
+            "DESIGN.md §5 C04", "partial; skeleton canonicalisation uses a frozen correspondence of the two storages"),
     "C05": ("other",
             "Decides the byte-range sentence at table level: all seven encode sets contain every byte outside "
             "0x21-0x7E except that only the C0 set omits the space, the C0 set is referenced only by the opaque-path "
@@ -74,6 +82,15 @@ CLAIMED = {
             "included). The spin-wait timeout (liveness) is not decided.",
             "CFG dominance / must-dataflow of guard facts + who-writes and call-graph queries + parameter-mod summaries",
             "DESIGN.md §5 C13", "relies on the C++20 memory model's release/acquire guarantee"),
+    "C19": ("other",
+            "Decides the guards that keep the record invariants as must-precede and copy-agreement rules: credential/"
+            "port setters mutate only behind !cannot_have_credentials_or_port(); the three state-override refusals and "
+            "the default-port elision exist and agree in all four copies of parse_scheme<true>; set_host_or_hostname "
+            "refusals are present and identical in both types; a port is stored only behind the default-port test / base "
+            "copy / snapshot restore; every stored scheme was lower-cased or matched against the lower-case list. The "
+            "invariants of all reachable objects (values) are not decided.",
+            "typestate (guard-before-mutation) + twin-skeleton agreement + who-writes queries + must-dataflow",
+            "DESIGN.md §5 C19", "partial"),
     "C17": ("other",
             "All 79 extern \"C\" functions: every dereference of the handle is dominated by its engagement check "
             "(must-dataflow over the CFG), the failed-handle exit returns the documented default, each wrapper calls "
@@ -123,7 +140,7 @@ NOT_APPLICABLE = {
            "no table, ordering, pairing or ownership fact whose breakage is necessary for a violation",
 }
 
-PENDING = {'C02': 'check not built yet in this round (see DESIGN.md §11 build order); not claimed until it is', 'C04': 'check not built yet in this round (see DESIGN.md §11 build order); not claimed until it is', 'C18': 'check not built yet in this round (see DESIGN.md §11 build order); not claimed until it is', 'C19': 'check not built yet in this round (see DESIGN.md §11 build order); not claimed until it is'}   # id -> reason, for properties whose check is not built yet
+PENDING = {'C02': 'check not built yet in this round (see DESIGN.md §11 build order); not claimed until it is', 'C18': 'check not built yet in this round (see DESIGN.md §11 build order); not claimed until it is', 'C19': 'check not built yet in this round (see DESIGN.md §11 build order); not claimed until it is'}   # id -> reason, for properties whose check is not built yet
 
 
 def main():
